@@ -1352,7 +1352,15 @@ class Unit:
             if re.fullmatch(r"&?\s*(mut\s+)?self", ptxt) or (recv is not None and re.fullmatch(r"&?\s*(mut\s+)?%s" % re.escape(recv), ptxt)):
                 has_self = True
                 if "mut" in ptxt:
-                    raise Unsupported("helper %s takes &mut self (not inlined)" % name)
+                    # `&mut self`: the body, with `self` standing for the receiver, acts on the receiver's fields through
+                    # auto-deref exactly as the call does -- unless it mentions the receiver as a whole (`*self = ..`, `self`
+                    # passed on), which a by-value receiver variable would not support
+                    rname = recv or "self"
+                    bt = [x for x in body if not L.is_trivia(x)]
+                    for q, x in enumerate(bt):
+                        if x.kind == L.IDENT and x.text == rname and not (q + 1 < len(bt) and bt[q + 1].text == "."):
+                            raise Unsupported("helper %s takes &mut self and uses the receiver as a whole (not inlined)" % name)
+                    self.log["rules"]["R16mut"] = self.log["rules"].get("R16mut", 0) + 1
                 continue
             m_ = re.match(r"(mut\s+)?(\w+)\s*:\s*(.*)$", ptxt, re.S)
             if not m_:
